@@ -76,27 +76,20 @@ func observeLoop(prop string, c *Case, cov *Cov) []*Violation {
 		vs = append(vs, &Violation{Prop: prop, Clause: prop + "." + clause, Msg: msg, Case: c, Known: known})
 	}
 	snaps := 0
-	// C11 state
-	nextJunk := 0 // index into s.Lines
-	wpos := 0
 	if prop == "C11" {
 		sr.OnBlock = func(r *iosim.SimReader) {
 			del := r.Delivered()
 			if cov != nil {
 				cov.Probe("block-points")
 			}
-			held := heldAt(s, del)
-			for nextJunk < len(s.Lines) && s.Lines[nextJunk].End <= del {
-				l := s.Lines[nextJunk]
-				if l.Class == gen.Junk && !l.Blank && l.Term && !held[nextJunk] {
-					i := bytes.Index(w.Buf[wpos:], b[l.Start:l.End])
-					if i < 0 {
-						add("withheld-line", "", fmt.Sprintf("the input source blocks after %d bytes; the complete pass-through line %s (bytes %d..%d) was delivered but has not been written to the output (%d bytes written so far, ends with %s)", del, Clip(b[l.Start:l.End], 80), l.Start, l.End, len(w.Buf), Clip(lastBytes(w.Buf, 60), 60)))
-						return
-					}
-					wpos += i + (l.End - l.Start)
-				}
-				nextJunk++
+			// everything that must have been written by now, in order: an exact
+			// prefix of the output (blank lines and repeated lines included)
+			exp, missing := expectedSoFar(s, del, nil)
+			if !bytes.HasPrefix(w.Buf, exp) {
+				d := FirstDiff(w.Buf, exp)
+				li := missing(d)
+				add("withheld-line", "", fmt.Sprintf("the input source blocks after %d bytes; the complete pass-through line %s (line %d, bytes %d..%d) was delivered but has not been written to the output (%d bytes written so far, %d expected; output ends with %s)", del, Clip(s.Text(li), 80), li, s.Lines[li].Start, s.Lines[li].End, len(w.Buf), len(exp), Clip(lastBytes(w.Buf, 60), 60)))
+				return
 			}
 			for di := range s.Dumps {
 				t := terminatorLine(s, &s.Dumps[di])
@@ -679,4 +672,61 @@ func continuationLike(l []byte) bool {
 		return true
 	}
 	return false
+}
+
+// expectedSoFar returns the bytes that must already have been written when the
+// producer blocks after del bytes: every complete pass-through line delivered
+// so far, in order - except the single blank separator after a goroutine dump
+// and race header lines that are still the last lines delivered (heldAt). With
+// rend != nil (command level) each dump whose terminating line has been
+// delivered is replaced by its rendering, and the list stops at the first dump
+// that is still open. missing maps an offset in the result back to the line.
+func expectedSoFar(s *gen.Stream, del int, rend [][]byte) ([]byte, func(off int) int) {
+	var out []byte
+	var starts, lines []int
+	skip := map[int]bool{}
+	for _, d := range s.Dumps {
+		if t := d.LastLine + 1; !d.Race && t < len(s.Lines) && s.Lines[t].Blank && s.Lines[t].Class == gen.Junk && s.Lines[t].Term {
+			skip[t] = true
+		}
+	}
+	held := heldAt(s, del)
+	di := 0
+	for li := 0; li < len(s.Lines); li++ {
+		l := s.Lines[li]
+		if l.Class == gen.Dump {
+			if di < len(s.Dumps) && li == s.Dumps[di].FirstLine {
+				t := terminatorLine(s, &s.Dumps[di])
+				if t < 0 || !s.Lines[t].Term || s.Lines[t].End > del {
+					break // still open: nothing after it can have been written
+				}
+				if rend != nil {
+					starts = append(starts, len(out))
+					lines = append(lines, li)
+					out = append(out, rend[di]...)
+				}
+				li = s.Dumps[di].LastLine
+				di++
+			}
+			continue
+		}
+		if !l.Term || l.End > del {
+			break
+		}
+		if skip[li] || held[li] {
+			continue
+		}
+		starts = append(starts, len(out))
+		lines = append(lines, li)
+		out = append(out, s.Bytes[l.Start:l.End]...)
+	}
+	return out, func(off int) int {
+		r := 0
+		for i, st := range starts {
+			if st <= off {
+				r = lines[i]
+			}
+		}
+		return r
+	}
 }
